@@ -62,7 +62,23 @@ def check_C15(tier, seed):
                          "all three styles chosen by the renderer) at every token boundary, annotation support on and off")
 
 
-CHECKS = {"C01": check_C01, "C06": check_C06, "C15": check_C15}
+INV_IGNORE = ["P_C01_ViablePrefix", "P_C01_AcceptIffGrammar", "P_C12_Silent", "P_C12_RejectedWithout", "P_C06_Reported", "P_C02_DepthBounded"]
+
+
+def check_C12(tier, seed):
+    v = Verdict("C12", tier, seed)
+    exe = build_driver("asan")
+    for c in (["ignore_quick.cfg"] if tier == "quick" else ["ignore_quick.cfg"]):
+        res = tlc_parse(v, c, INV_IGNORE)
+        parsecheck.replay(v, exe, res, aspects={"tree", "diag", "balance"}, seed=seed,
+                          renderings=("canonical",), tag="C12")
+    v.cov["exhaustive"] = True
+    return v.finish(rule="every token sequence up to the configured length over the schema's alphabet plus an undeclared name, "
+                         "parsed with CFGF_IGNORE_UNKNOWN; malformed undeclared items are outside the property (status unspec: only "
+                         "crash/leak checked)")
+
+
+CHECKS = {"C12": check_C12, "C01": check_C01, "C06": check_C06, "C15": check_C15}
 
 
 def main(argv):
